@@ -293,8 +293,38 @@ def t_import_order(rec, seed, tier):
     rec.subrecord("import-orders", exhaustive=True, orders=len(results))
 
 
+@oracle(PROPERTY, "presets")
+def o_presets(rec, case, soft=False):
+    """the documented Django presets are the documented per-version contexts ("django-1.6 - config used by stock Django 1.6 installs")"""
+    import passlib.apps
+    from passlib.context import CryptContext
+    from passlib.ext.django.utils import get_preset_config
+
+    for preset, attr in (("django-1.0", "django10_context"), ("django-1.4", "django14_context"), ("django-1.6", "django16_context"), ("django-latest", "django_context")):
+        rec.ev()
+        rec.nt("preset", preset)
+        got = list(CryptContext.from_string(get_preset_config(preset)).schemes())
+        want = list(getattr(passlib.apps, attr).schemes())
+        if got != want:
+            rec.fail(f"C17/preset-schemes/{preset}", f"preset {preset!r} does not list the schemes of passlib.apps.{attr}", "presets", {"preset": preset}, got, want, soft=soft)
+            return
+    # documented version ladder: 1.4 added the pbkdf2 and bcrypt formats, 1.6 added bcrypt_sha256
+    s14 = CryptContext.from_string(get_preset_config("django-1.4")).schemes()
+    s16 = CryptContext.from_string(get_preset_config("django-1.6")).schemes()
+    if "django_bcrypt_sha256" in s14 or "django_bcrypt_sha256" not in s16 or "django_pbkdf2_sha256" not in s14:
+        rec.fail("C17/preset-version-ladder", "the django-1.4 / django-1.6 presets do not carry the formats those versions introduced", "presets", {"preset": "django-1.4/1.6"}, [list(s14), list(s16)], None, soft=soft)
+
+
+ORACLES["presets"] = o_presets
+
+
+def t_presets(rec, seed, tier):
+    o_presets(rec, {}, soft=True)
+    rec.sample("presets", {"presets": ["django-1.0", "django-1.4", "django-1.6", "django-latest"]})
+
+
 def tasks(tier):
-    ts = [{"name": f"ctx-{cid}", "fn": "t_context", "kw": {"cid": cid}} for cid in all_context_ids()]
+    ts = [{"name": f"ctx-{cid}", "fn": "t_context", "kw": {"cid": cid}} for cid in all_context_ids()] + [{"name": "presets", "fn": "t_presets"}]
     ts.append({"name": "registry", "fn": "t_registry"})
     ts.append({"name": "import-order", "fn": "t_import_order"})
     return ts
